@@ -264,6 +264,16 @@ func (e *exporter) adt(env *adt.Environment, expr adt.Elem) ast.Expr {
 		a := []ast.Expr{}
 		for _, d := range x.Values {
 			v := e.expr(env, d.Val)
+			if b, ok := v.(*ast.BinaryExpr); ok && b.Op == token.OR && !d.Default {
+				// A disjunct that is itself a disjunction is a separate
+				// group: its default marks are resolved within the group
+				// before the groups are combined, so (1 | *2) | (*3 | 4)
+				// (default 2 | 3) is not 1 | *2 | (*3 | 4) (default 2).
+				// NewBinExpr builds a left-nested chain, in which a printer
+				// cannot tell the first group from the chain itself, so make
+				// the grouping explicit.
+				v = &ast.ParenExpr{X: v}
+			}
 			if d.Default {
 				v = &ast.UnaryExpr{Op: token.MUL, X: v}
 			}
